@@ -175,6 +175,8 @@ type act struct {
 	Err    string
 	Seed   int64
 	CT     string
+	MsgLen int // status message of exactly this many bytes (overrides Msg)
+	MsgMB  int // ... made of runes of this many bytes (1..4)
 }
 
 func (a act) String() string {
@@ -219,6 +221,12 @@ func (a act) String() string {
 	if a.CT != "" {
 		add("ct", a.CT)
 	}
+	if a.MsgLen != 0 {
+		add("msglen", strconv.Itoa(a.MsgLen))
+	}
+	if a.MsgMB != 0 {
+		add("msgmb", strconv.Itoa(a.MsgMB))
+	}
 	return strings.Join(p, ";")
 }
 
@@ -254,6 +262,10 @@ func parseAct(s string) act {
 			a.Seed = n
 		case "ct":
 			a.CT = v
+		case "msglen":
+			a.MsgLen = int(n)
+		case "msgmb":
+			a.MsgMB = int(n)
 		}
 	}
 	return a
@@ -296,6 +308,41 @@ var ctClassNames = []string{"", "text", "png", "json", "junk", "body", "long", "
 
 // err builds the error the handler returns (nil when the action asks for
 // success).
+// message is the status message the action asks for.
+func (a act) message() string {
+	if a.MsgLen <= 0 {
+		return msgClasses[a.Msg]
+	}
+	n := a.MsgLen
+	if n > 1<<20 {
+		n = 1 << 20
+	}
+	r := map[int]string{2: "é", 3: "€", 4: "\U0001F600"}[a.MsgMB]
+	if r == "" {
+		return strings.Repeat("m", n)
+	}
+	// ASCII padding first, so that the runes straddle every later offset
+	return strings.Repeat("x", n%len(r)) + strings.Repeat(r, n/len(r))
+}
+
+// firstString returns the first non-empty singular string field of m.
+func firstString(m proto.Message) string {
+	if m == nil {
+		return ""
+	}
+	r := m.ProtoReflect()
+	fds := r.Descriptor().Fields()
+	for i := 0; i < fds.Len(); i++ {
+		fd := fds.Get(i)
+		if fd.Kind() == protoreflect.StringKind && !fd.IsList() && !fd.IsMap() {
+			if v := r.Get(fd).String(); v != "" {
+				return v
+			}
+		}
+	}
+	return ""
+}
+
 func (a act) err() error {
 	switch a.Err {
 	case "eof":
@@ -307,14 +354,14 @@ func (a act) err() error {
 	case "deadline":
 		return context.DeadlineExceeded
 	case "plain":
-		return errors.New("plain error " + msgClasses[a.Msg])
+		return errors.New("plain error " + a.message())
 	case "wrapped":
-		return fmt.Errorf("wrapped: %w", status.Error(3, msgClasses[a.Msg]))
+		return fmt.Errorf("wrapped: %w", status.Error(3, a.message()))
 	}
 	if a.Code < 0 {
 		return nil
 	}
-	p := &spb.Status{Code: int32(uint32(a.Code)), Message: msgClasses[a.Msg]}
+	p := &spb.Status{Code: int32(uint32(a.Code)), Message: a.message()}
 	if a.Det&1 != 0 {
 		if d, err := anypb.New(wrapperspb.String("detail")); err == nil {
 			p.Details = append(p.Details, d)
@@ -493,6 +540,9 @@ func (b *beh) unary(ctx context.Context, in, out proto.Message) error {
 	b.note(1, false)
 	b.meta(ctx, nil, a)
 	fillReply(out, in, a)
+	if a.Err == "echo" {
+		return status.Error(5, "no such room "+firstString(in))
+	}
 	return a.err()
 }
 
@@ -551,6 +601,10 @@ func (b *beh) stream(ss grpc.ServerStream, cs, sst bool, newIn, newOut func() pr
 		}
 		recvs++
 		last = in
+		if a.Err == "echo" {
+			// an error message quoting request data
+			return status.Error(5, "no such room "+firstString(in))
+		}
 		if sst && cs {
 			if err := send(in); err != nil {
 				return err
